@@ -53,4 +53,495 @@ theorem byteAt_eq (bs : Bytes) (p : Nat) :
   split
   · rename_i h; simp [h]
   · rename_i h; simp [h]
+/-- which script kind decodes which RFC field form -/
+def compatKind : FieldKind → Rfc.FieldSpec → Bool
+  | .be16, .u16 | .be32, .u32 | .u8, .u8 | .name false, .domainName | .addr4, .ipv4 | .addr6, .ipv6
+  | .abin false, .charStrings | .binRest, .opaqueRest | .strRest, .textRest | .opts, .tlvRest => true
+  | .str blankAllowed, .charString nonEmpty => blankAllowed == !nonEmpty
+  | _, _ => false
+
+/-- the RDATA window of an RR whose RDATA starts at `rdStart` -/
+structure Win (bs : Bytes) (rdStart rdlength : Nat) : Prop where
+  fits : rdStart + rdlength ≤ bs.size
+
+section window
+variable {bs : Bytes} {rdStart rdlength : Nat}
+
+theorem rrRemainingLen_eq (w : Win bs rdStart rdlength) {p : Nat} (h1 : rdStart ≤ p) (h2 : p ≤ bs.size) :
+    rrRemainingLen bs (bs.size - rdStart) rdlength p = .ok (rdStart + rdlength - p) p := by
+  have := w.fits
+  unfold rrRemainingLen
+  rw [P.bind_ok (bufLen_eq h2)]
+  have hs : subChecked (bs.size - rdStart) (bs.size - p) p = .ok (bs.size - rdStart - (bs.size - p)) p := by
+    simp [subChecked]; omega
+  rw [P.bind_ok hs]
+  by_cases hc : bs.size - rdStart - (bs.size - p) ≥ rdlength
+  · rw [if_pos hc]; simp only [P.pure_apply]; congr 1; omega
+  · rw [if_neg hc]; simp only [P.pure_apply]; congr 1; omega
+
+theorem printable_eq (b : BStr) : Rfc.printable b = b.all fun c => isPrint c.toNat := by
+  unfold Rfc.printable
+  congr 1
+  funext c
+  have : ∀ n, n < 256 → (decide (32 ≤ n) && decide (n ≤ 126)) = isPrint n := by decide +kernel
+  exact this c.toNat c.toNat_lt
+
+/-- closed form of `ares_buf_parse_dns_str` (printable validation on) -/
+theorem parseDnsStr_eq {p rem : Nat} (h : p ≤ bs.size) :
+    parseDnsBinstr bs rem true p =
+      if rem = 0 then .err .ebadresp
+      else if hp : p < bs.size then
+        (if bs[p].toNat > rem - 1 then .err .ebadresp
+         else if p + 1 + bs[p].toNat ≤ bs.size then
+           (if Rfc.printable (slice bs (p + 1) bs[p].toNat) then
+              .ok (slice bs (p + 1) bs[p].toNat) (p + 1 + bs[p].toNat)
+            else .err .ebadstr)
+         else .err .ebadresp)
+      else .err .ebadresp := by
+  unfold parseDnsBinstr
+  by_cases hr : rem = 0
+  · rw [if_pos hr, if_pos hr]; rfl
+  · rw [if_neg hr, if_neg hr]
+    by_cases hp : p < bs.size
+    · rw [dif_pos hp]
+      have hf : fetchByte bs p = .ok bs[p] (p + 1) := by rw [fetchByte_eq h, dif_pos hp]
+      rw [P.bind_ok hf]
+      by_cases hl : bs[p].toNat > rem - 1
+      · rw [if_pos hl, if_pos hl]; rfl
+      · rw [if_neg hl, if_neg hl]
+        by_cases hz : bs[p].toNat ≠ 0
+        · rw [if_pos hz, P.bind_ok (bufLen_eq (by omega))]
+          by_cases hfit : p + 1 + bs[p].toNat ≤ bs.size
+          · rw [if_pos hfit, if_pos ⟨rfl, by omega⟩, P.bind_ok (rawSlice_eq hfit), printable_eq]
+            by_cases hpr : (slice bs (p + 1) bs[p].toNat).all (fun c => isPrint c.toNat) = true
+            · rw [if_pos hpr, if_neg (by simp [hpr]), fetchBytes_eq (by omega), if_pos ⟨hz, hfit⟩]
+            · rw [if_neg hpr, if_pos (by simpa using hpr)]; rfl
+          · rw [if_neg hfit, if_neg (by omega), fetchBytes_eq (by omega), if_neg (by omega)]
+        · have hz' : bs[p].toNat = 0 := by omega
+          rw [if_neg hz, if_pos (by omega)]
+          simp only [hz', P.pure_apply, Nat.add_zero]
+          have : slice bs (p + 1) 0 = [] := by simp [slice]
+          rw [this]
+          simp [Rfc.printable]
+    · rw [dif_neg hp]
+      have hf : fetchByte bs p = .err .ebadresp := by rw [fetchByte_eq h, dif_neg hp]
+      rw [P.bind_err hf]
+theorem slice_zero (bs : Bytes) (p : Nat) : slice bs p 0 = [] := by simp [slice]
+
+/-- closed form of one option triple -/
+theorem optStep_eq {p : Nat} (h : p ≤ bs.size) :
+    optStep bs p =
+      if h4 : p + 4 ≤ bs.size then
+        (if p + 4 + be16At bs (p + 2) (by omega) ≤ bs.size then
+           .ok (be16At bs p (by omega), slice bs (p + 4) (be16At bs (p + 2) (by omega)))
+             (p + 4 + be16At bs (p + 2) (by omega))
+         else .err .ebadresp)
+      else .err .ebadresp := by
+  unfold optStep
+  by_cases h4 : p + 4 ≤ bs.size
+  · rw [dif_pos h4]
+    have f1 : fetchBe16 bs p = .ok (be16At bs p (by omega)) (p + 2) := by
+      rw [fetchBe16_eq h, dif_pos (by omega)]
+    have f2 : fetchBe16 bs (p + 2) = .ok (be16At bs (p + 2) (by omega)) (p + 2 + 2) := by
+      rw [fetchBe16_eq (by omega), dif_pos (by omega)]
+    rw [P.bind_ok f1, P.bind_ok f2]
+    by_cases hz : be16At bs (p + 2) (by omega) ≠ 0
+    · rw [if_pos hz]
+      by_cases hfit : p + 4 + be16At bs (p + 2) (by omega) ≤ bs.size
+      · rw [if_pos hfit]
+        have f3 : fetchBytes bs (be16At bs (p + 2) (by omega)) (p + 2 + 2) =
+            .ok (slice bs (p + 4) (be16At bs (p + 2) (by omega))) (p + 4 + be16At bs (p + 2) (by omega)) := by
+          rw [fetchBytes_eq (by omega), if_pos ⟨hz, by omega⟩]
+        rw [P.bind_ok f3]; rfl
+      · rw [if_neg hfit]
+        have f3 : fetchBytes bs (be16At bs (p + 2) (by omega)) (p + 2 + 2) = .err .ebadresp := by
+          rw [fetchBytes_eq (by omega), if_neg (by omega)]
+        rw [P.bind_err f3]
+    · have hz' : be16At bs (p + 2) (by omega) = 0 := by omega
+      rw [if_neg hz, if_pos (by omega)]
+      simp only [hz', P.pure_apply, Nat.add_zero, slice_zero]
+  · rw [dif_neg h4]
+    by_cases h2 : p + 2 ≤ bs.size
+    · have f1 : fetchBe16 bs p = .ok (be16At bs p h2) (p + 2) := by rw [fetchBe16_eq h, dif_pos h2]
+      have f2 : fetchBe16 bs (p + 2) = .err .ebadresp := by rw [fetchBe16_eq (by omega), dif_neg (by omega)]
+      rw [P.bind_ok f1, P.bind_err f2]
+    · have f1 : fetchBe16 bs p = .err .ebadresp := by rw [fetchBe16_eq h, dif_neg h2]
+      rw [P.bind_err f1]
+
+def optFold (acc : List (Nat × BStr)) (tl : List (Nat × BStr)) : List (Nat × BStr) :=
+  tl.foldl (fun a kv => setOpt a kv.1 kv.2) acc
+
+/-- option loop → declarative TLV list (soundness direction) -/
+theorem optLoop_sound (w : Win bs rdStart rdlength) (acc : List (Nat × BStr)) (p : Nat)
+    (h1 : rdStart ≤ p) (h2 : p ≤ bs.size) {l : List (Nat × BStr)} {p' : Nat}
+    (hr : optLoop bs (bs.size - rdStart) rdlength acc p = .ok l p') (hp' : p' ≤ rdStart + rdlength) :
+    ∃ tl, Rfc.tlvs bs (rdStart + rdlength) p = some tl ∧ l = optFold acc tl ∧ p' = rdStart + rdlength := by
+  fun_induction optLoop bs (bs.size - rdStart) rdlength acc p
+  all_goals (try (simp at hr; done))
+  case case5 acc p rem x hrem hne o p1 hstep ih =>
+    rw [rrRemainingLen_eq w h1 h2] at hrem
+    injection hrem with hrem _
+    have hso := optStep_ok hstep
+    obtain ⟨tl', ht, hl, he⟩ := ih (by omega) (by omega) hr
+    have hmono : p1 ≤ p' := by
+      have := safe_optLoop bs (bs.size - rdStart) rdlength (setOpt acc o.1 o.2) p1 (by omega) (by omega)
+      rw [hr] at this
+      exact this.1
+    rw [optStep_eq h2] at hstep
+    split at hstep
+    · rename_i h4
+      split at hstep
+      · rename_i hfit
+        injection hstep with ho hp1
+        subst ho; subst hp1
+        refine ⟨(be16At bs p (by omega), slice bs (p + 4) (be16At bs (p + 2) h4)) :: tl', ?_, ?_, he⟩
+        · rw [Rfc.tlvs]
+          have hpe : ¬ p = rdStart + rdlength := by omega
+          have w' := w.fits
+          rw [if_neg hpe, dif_pos ⟨by omega, by omega⟩]
+          simp only [← be16At_eq (bs := bs) (p := p) (by omega)]
+          have e2 : bs[p + 2].toNat * 256 + bs[p + 3].toNat = be16At bs (p + 2) (by omega) := by
+            rw [be16At_eq]
+          simp only [e2]
+          rw [if_pos (by omega), ht]
+        · rw [hl]; rfl
+      · simp at hstep
+    · simp at hstep
+  case case6 acc p rem x hrem hz =>
+    rw [rrRemainingLen_eq w h1 h2] at hrem
+    injection hrem with hrem _
+    injection hr with hl hp
+    subst hl; subst hp
+    have : p = rdStart + rdlength := by omega
+    refine ⟨[], ?_, rfl, this⟩
+    rw [Rfc.tlvs, if_pos this]
+
+/-- declarative TLV list → option loop (completeness direction) -/
+theorem optLoop_complete (w : Win bs rdStart rdlength) (e : Nat) (he : e = rdStart + rdlength) (p : Nat) :
+    rdStart ≤ p → ∀ (acc : List (Nat × BStr)) {tl : List (Nat × BStr)}, Rfc.tlvs bs e p = some tl →
+      optLoop bs (bs.size - rdStart) rdlength acc p = .ok (optFold acc tl) e := by
+  have w' := w.fits
+  fun_induction Rfc.tlvs bs e p
+  all_goals intro h1 acc tl ht
+  all_goals (try (simp at ht; done))
+  case case1 =>
+    injection ht with ht; subst ht
+    rw [optLoop, rrRemainingLen_eq w h1 (by omega)]
+    simp [he, optFold]
+  case case2 p hpe h4 code len hfit l hrec ih =>
+    injection ht with ht; subst ht
+    have hcode : code = be16At bs p (by omega) := by rw [be16At_eq]
+    have hlen : len = be16At bs (p + 2) (by omega) := by rw [be16At_eq]
+    rw [optLoop, rrRemainingLen_eq w h1 (by omega)]
+    simp only
+    rw [if_pos (by omega)]
+    have hstep : optStep bs p = .ok (code, slice bs (p + 4) len) (p + 4 + len) := by
+      rw [optStep_eq (by omega), dif_pos (by omega), if_pos (by rw [← hlen]; omega), ← hcode, ← hlen]
+    split
+    · rename_i e' he'; rw [hstep] at he'; simp at he'
+    · rename_i e' he'; rw [hstep] at he'; simp at he'
+    · rename_i o p1 he'
+      rw [hstep] at he'
+      injection he' with ho hp1
+      subst ho; subst hp1
+      rw [ih (by omega) _ hrec]
+      rfl
+/-- closed form of one `<character-string>` of the TXT loop (no printable validation) -/
+theorem multistringStep_eq {p : Nat} (h : p ≤ bs.size) :
+    multistringStep bs false p =
+      if hp : p < bs.size then
+        (if p + 1 + bs[p].toNat ≤ bs.size then .ok (slice bs (p + 1) bs[p].toNat) (p + 1 + bs[p].toNat)
+         else .err .ebadresp)
+      else .err .ebadresp := by
+  unfold multistringStep
+  by_cases hp : p < bs.size
+  · rw [dif_pos hp]
+    have hf : fetchByte bs p = .ok bs[p] (p + 1) := by rw [fetchByte_eq h, dif_pos hp]
+    rw [P.bind_ok hf, P.bind_ok (bufLen_eq (by omega))]
+    rw [if_neg (by simp)]
+    by_cases hz : bs[p].toNat ≠ 0
+    · rw [if_pos hz, fetchBytes_eq (by omega)]
+      by_cases hfit : p + 1 + bs[p].toNat ≤ bs.size
+      · rw [if_pos hfit, if_pos ⟨hz, hfit⟩]
+      · rw [if_neg hfit, if_neg (by omega)]
+    · have hz' : bs[p].toNat = 0 := by omega
+      rw [if_neg hz, if_pos (by omega)]
+      simp only [hz', P.pure_apply, Nat.add_zero, slice_zero]
+  · rw [dif_neg hp]
+    have hf : fetchByte bs p = .err .ebadresp := by rw [fetchByte_eq h, dif_neg hp]
+    rw [P.bind_err hf]
+
+/-- TXT loop started at `p0` with `remaining_len = n` → strings tiling `[p, p0 + n)` -/
+theorem multistringLoop_sound (p0 n : Nat) (hw : p0 + n ≤ bs.size) (acc : List BStr) (ran : Bool) (p : Nat)
+    (h1 : p0 ≤ p) (h2 : p ≤ bs.size) {l : List BStr} {p' : Nat}
+    (hr : multistringLoop bs (bs.size - p0) n false acc ran p = .ok l p') (hp' : p' ≤ p0 + n) :
+    ∃ sl, Rfc.charStrings bs (p0 + n) p = some sl ∧ l = acc ++ sl ∧ p' = p0 + n ∧ (ran = true ∨ sl ≠ []) := by
+  fun_induction multistringLoop bs (bs.size - p0) n false acc ran p
+  all_goals (try (simp at hr; done))
+  case case5 acc ran p used x hused hlt s p1 hstep ih =>
+    rw [bufLen_sub_eq h2 (by omega)] at hused
+    injection hused with hused _
+    have hso := multistringStep_ok hstep
+    obtain ⟨sl', ht, hl, he, _⟩ := ih (by omega) (by omega) hr
+    have hmono : p1 ≤ p' := by
+      have := safe_multistringLoop bs (bs.size - p0) n false (acc ++ [s]) true p1 (by omega) (by omega)
+      rw [hr] at this
+      exact this.1
+    rw [multistringStep_eq h2] at hstep
+    split at hstep
+    · rename_i hp
+      split at hstep
+      · rename_i hfit
+        injection hstep with hs hp1
+        subst hs; subst hp1
+        refine ⟨slice bs (p + 1) bs[p].toNat :: sl', ?_, by rw [hl]; simp, he, Or.inr (by simp)⟩
+        rw [Rfc.charStrings, dif_pos ⟨by omega, hp⟩]
+        simp only
+        rw [if_pos (by omega), ht]
+      · simp at hstep
+    · simp at hstep
+  case case6 acc p used x hused hge =>
+    rw [bufLen_sub_eq h2 (by omega)] at hused
+    injection hused with hused _
+    injection hr with hl hp
+    subst hl; subst hp
+    have : p = p0 + n := by omega
+    refine ⟨[], ?_, by simp, this, Or.inl rfl⟩
+    rw [Rfc.charStrings, dif_neg (by omega), if_pos this]
+
+theorem multistringLoop_complete (p0 n : Nat) (hw : p0 + n ≤ bs.size) (e : Nat) (he : e = p0 + n) (p : Nat) :
+    p0 ≤ p → ∀ (acc : List BStr) (ran : Bool) {sl : List BStr}, Rfc.charStrings bs e p = some sl →
+      (ran = true ∨ sl ≠ []) →
+      multistringLoop bs (bs.size - p0) n false acc ran p = .ok (acc ++ sl) e := by
+  fun_induction Rfc.charStrings bs e p
+  all_goals intro h1 acc ran sl ht hran
+  all_goals (try (simp at ht; done))
+  case case1 p hp len hfit l hrec ih =>
+    injection ht with ht; subst ht
+    rw [multistringLoop, bufLen_sub_eq (by omega) (by omega)]
+    simp only
+    rw [if_pos (by omega)]
+    have hstep : multistringStep bs false p = .ok (slice bs (p + 1) len) (p + 1 + len) := by
+      rw [multistringStep_eq (by omega), dif_pos hp.2, if_pos (by omega)]
+    split
+    · rename_i e' he'; rw [hstep] at he'; simp at he'
+    · rename_i e' he'; rw [hstep] at he'; simp at he'
+    · rename_i s p1 he'
+      rw [hstep] at he'
+      injection he' with hs hp1
+      subst hs; subst hp1
+      rw [ih (by omega) _ true hrec (Or.inl rfl)]
+      simp
+  case case4 hp =>
+    injection ht with ht; subst ht
+    have hr : ran = true := by simpa using hran
+    rw [multistringLoop, bufLen_sub_eq (by omega) (by omega)]
+    simp only
+    rw [if_neg (by omega), hr]
+    simp
+def isAbin : FieldKind → Bool
+  | .abin _ => true
+  | _ => false
+
+theorem parseField_sound (w : Win bs rdStart rdlength) {kind : FieldKind} {spec : Rfc.FieldSpec}
+    (hk : compatKind kind spec = true) {p : Nat} (h1 : rdStart ≤ p) (h2 : p ≤ bs.size)
+    (habin : isAbin kind = true → p = rdStart) {v : Val} {p' : Nat}
+    (hr : parseField bs (bs.size - rdStart) rdlength kind p = .ok v p') (hp' : p' ≤ rdStart + rdlength) :
+    ∃ fv, Rfc.decodeField bs (rdStart + rdlength) spec p = some (fv, p') ∧ Rfc.toVal spec fv = some v ∧
+      Rfc.fieldSupported spec fv = true := by
+  have wf := w.fits
+  cases kind <;> cases spec <;> simp only [compatKind] at hk <;> (try (exact absurd hk (by decide)))
+  case be16.u16 =>
+    obtain ⟨a, o1, g1, g2⟩ := P.bind_eq_ok hr
+    simp only [P.pure_apply] at g2
+    injection g2 with g2 g3; subst g2; subst g3
+    rw [fetchBe16_eq h2] at g1
+    split at g1
+    · rename_i hfit
+      injection g1 with g1 g3; subst g1; subst g3
+      refine ⟨.num (be16At bs p hfit), ?_, rfl, rfl⟩
+      simp only [Rfc.decodeField]
+      rw [if_pos hp', u16At_eq, dif_pos hfit]; rfl
+    · simp at g1
+  case be32.u32 =>
+    obtain ⟨a, o1, g1, g2⟩ := P.bind_eq_ok hr
+    simp only [P.pure_apply] at g2
+    injection g2 with g2 g3; subst g2; subst g3
+    rw [fetchBe32_eq h2] at g1
+    split at g1
+    · rename_i hfit
+      injection g1 with g1 g3; subst g1; subst g3
+      refine ⟨.num (be32At bs p hfit), ?_, rfl, rfl⟩
+      simp only [Rfc.decodeField]
+      rw [if_pos hp', u32At_eq, dif_pos hfit]; rfl
+    · simp at g1
+  case u8.u8 =>
+    obtain ⟨a, o1, g1, g2⟩ := P.bind_eq_ok hr
+    simp only [P.pure_apply] at g2
+    injection g2 with g2 g3; subst g2; subst g3
+    rw [fetchByte_eq h2] at g1
+    split at g1
+    · rename_i hfit
+      injection g1 with g1 g3; subst g1; subst g3
+      refine ⟨.num bs[p].toNat, ?_, rfl, rfl⟩
+      simp only [Rfc.decodeField]
+      rw [if_pos hp', byteAt_eq, dif_pos hfit]; rfl
+    · simp at g1
+  case name.domainName isHost =>
+    cases isHost
+    · obtain ⟨a, o1, g1, g2⟩ := P.bind_eq_ok hr
+      simp only [P.pure_apply] at g2
+      injection g2 with g2 g3; subst g2; subst g3
+      rw [parseName_eq_rfc bs p h2] at g1
+      cases hn : Rfc.name bs p with
+      | none => rw [hn] at g1; simp at g1
+      | some r =>
+        obtain ⟨ls, next⟩ := r
+        rw [hn] at g1
+        injection g1 with g1 g3; subst g1; subst g3
+        refine ⟨.name ls, ?_, rfl, rfl⟩
+        simp only [Rfc.decodeField, hn]
+        rw [if_pos hp']
+    · simp at hk
+  case str.charString blank ne =>
+    obtain ⟨rem, o1, g1, g2⟩ := P.bind_eq_ok hr
+    rw [rrRemainingLen_eq w h1 h2] at g1
+    injection g1 with g1 g3; subst g1; subst g3
+    obtain ⟨s, o2, g3, g4⟩ := P.bind_eq_ok g2
+    rw [parseDnsStr_eq h2] at g3
+    split at g3
+    · simp at g3
+    · rename_i hrem
+      split at g3
+      · rename_i hp
+        split at g3
+        · simp at g3
+        · rename_i hlen
+          split at g3
+          · rename_i hfit
+            split at g3
+            · rename_i hpr
+              injection g3 with g3 g5; subst g3; subst g5
+              split at g4
+              · simp at g4
+              · rename_i hblank
+                simp only [P.pure_apply] at g4
+                injection g4 with g4 g5; subst g4; subst g5
+                refine ⟨.bytes (slice bs (p + 1) bs[p].toNat), ?_, rfl, hpr⟩
+                simp only [Rfc.decodeField]
+                rw [if_pos (by omega), byteAt_eq, dif_pos hp]
+                simp only
+                have hne : (ne = true → bs[p].toNat ≠ 0) := by
+                  intro hne h0
+                  apply hblank
+                  have hb : blank = false := by cases blank <;> simp_all
+                  refine ⟨by simp [hb], ?_⟩
+                  rw [slice_length hfit]; exact h0
+                rw [if_pos ⟨by omega, hne⟩]
+            · simp at g3
+          · simp at g3
+      · simp at g3
+  case addr4.ipv4 =>
+    obtain ⟨a, o1, g1, g2⟩ := P.bind_eq_ok hr
+    simp only [P.pure_apply] at g2
+    injection g2 with g2 g3; subst g2; subst g3
+    rw [fetchBytes_eq h2] at g1
+    split at g1
+    · injection g1 with g1 g3; subst g1; subst g3
+      refine ⟨.bytes (slice bs p 4), ?_, rfl, rfl⟩
+      simp only [Rfc.decodeField]
+      rw [if_pos hp']
+    · simp at g1
+  case addr6.ipv6 =>
+    obtain ⟨a, o1, g1, g2⟩ := P.bind_eq_ok hr
+    simp only [P.pure_apply] at g2
+    injection g2 with g2 g3; subst g2; subst g3
+    rw [fetchBytes_eq h2] at g1
+    split at g1
+    · injection g1 with g1 g3; subst g1; subst g3
+      refine ⟨.bytes (slice bs p 16), ?_, rfl, rfl⟩
+      simp only [Rfc.decodeField]
+      rw [if_pos hp']
+    · simp at g1
+  case abin.charStrings vp =>
+    cases vp
+    · have hp0 : p = rdStart := habin rfl
+      subst hp0
+      obtain ⟨l, o1, g1, g2⟩ := P.bind_eq_ok hr
+      simp only [P.pure_apply] at g2
+      injection g2 with g2 g3; subst g2; subst g3
+      unfold parseMultistring at g1
+      rw [P.bind_ok (bufLen_eq h2)] at g1
+      split at g1
+      · simp at g1
+      · obtain ⟨sl, hs, hl, he, hne⟩ := multistringLoop_sound p rdlength wf [] false p (Nat.le_refl _) h2 g1 hp'
+        simp only [List.nil_append] at hl
+        subst hl; subst he
+        have hne' : l ≠ [] := by simpa using hne
+        refine ⟨.strs l, ?_, rfl, rfl⟩
+        cases l with
+        | nil => exact (hne' rfl).elim
+        | cons a t => simp only [Rfc.decodeField, hs]
+    · simp at hk
+  case binRest.opaqueRest =>
+    obtain ⟨len, o1, g1, g2⟩ := P.bind_eq_ok hr
+    rw [rrRemainingLen_eq w h1 h2] at g1
+    injection g1 with g1 g3; subst g1; subst g3
+    split at g2
+    · simp at g2
+    · rename_i hlen
+      obtain ⟨b, o2, g3, g4⟩ := P.bind_eq_ok g2
+      simp only [P.pure_apply] at g4
+      injection g4 with g4 g5; subst g4; subst g5
+      rw [fetchBytes_eq h2] at g3
+      split at g3
+      · injection g3 with g3 g5; subst g3; subst g5
+        refine ⟨.bytes (slice bs p (rdStart + rdlength - p)), ?_, rfl, ?_⟩
+        · simp only [Rfc.decodeField]
+          rw [if_pos (by omega)]
+          congr 2
+          omega
+        · simp only [Rfc.fieldSupported]
+          rw [slice_length (by omega)]
+          simpa using hlen
+      · simp at g3
+  case strRest.textRest =>
+    obtain ⟨len, o1, g1, g2⟩ := P.bind_eq_ok hr
+    rw [rrRemainingLen_eq w h1 h2] at g1
+    injection g1 with g1 g3; subst g1; subst g3
+    split at g2
+    · simp at g2
+    · rename_i hlen
+      obtain ⟨s, o2, g3, g4⟩ := P.bind_eq_ok g2
+      simp only [P.pure_apply] at g4
+      injection g4 with g4 g5; subst g4; subst g5
+      unfold fetchStrDup at g3
+      rw [P.bind_ok (bufLen_eq h2)] at g3
+      split at g3
+      · simp at g3
+      · rename_i hc
+        rw [P.bind_ok (rawSlice_eq (by omega))] at g3
+        split at g3
+        · simp at g3
+        · rename_i hpr
+          rw [P.bind_ok (by rw [consume_eq h2, if_pos (by omega)])] at g3
+          simp only [P.pure_apply] at g3
+          injection g3 with g3 g5; subst g3; subst g5
+          refine ⟨.bytes (slice bs p (rdStart + rdlength - p)), ?_, rfl, ?_⟩
+          · simp only [Rfc.decodeField]
+            rw [if_pos (by omega)]
+            congr 2
+            omega
+          · simp only [Rfc.fieldSupported, printable_eq]
+            simpa using hpr
+  case opts.tlvRest =>
+    obtain ⟨l, o1, g1, g2⟩ := P.bind_eq_ok hr
+    simp only [P.pure_apply] at g2
+    injection g2 with g2 g3; subst g2; subst g3
+    obtain ⟨tl, ht, hl, he⟩ := optLoop_sound w [] p h1 h2 g1 hp'
+    subst hl; subst he
+    refine ⟨.tlvs tl, ?_, rfl, rfl⟩
+    simp only [Rfc.decodeField, ht, Option.map_some]
+end window
+
 end Cares.Dns
